@@ -165,8 +165,19 @@ func LayerConvertFuncWithCompressionLevel(compressionLevel zstd.EncoderLevel, op
 		}
 		// update diffID label
 		labelz[labels.LabelUncompressed] = blob.DiffID().String()
-		if err = w.Commit(ctx, n, "", content.WithLabels(labelz)); err != nil && !errdefs.IsAlreadyExists(err) {
-			return nil, err
+		if err = w.Commit(ctx, n, "", content.WithLabels(labelz)); err != nil {
+			if !errdefs.IsAlreadyExists(err) {
+				return nil, err
+			}
+			// The same blob is already in the content store (e.g. the input is already
+			// converted). Commit didn't touch its labels so record the diffID here.
+			info := content.Info{
+				Digest: w.Digest(),
+				Labels: map[string]string{labels.LabelUncompressed: blob.DiffID().String()},
+			}
+			if _, err := cs.Update(ctx, info, "labels."+labels.LabelUncompressed); err != nil {
+				return nil, err
+			}
 		}
 		if err := w.Close(); err != nil {
 			return nil, err
